@@ -103,6 +103,22 @@ Definition tok_wf (k : tok) : bool :=
     wf_tag t && wf_data x && blank w1 && blank w2 && blank w3 && (if cd then negb (has_close x) else true)
   | TClose t ws => wf_tag t && blank ws
   end.
+(** the same shape, but what trails an END TAG may be any '<'-free text (stray text when it is not blank) *)
+Definition tok_shape (k : tok) : bool :=
+  match k with
+  | TOpen t ws => wf_tag t && blank ws
+  | TEmpty t w1 j => wf_tag t && blank w1 && forallb not_lt j
+  | TLeaf t cd w1 x w2 cl w3 =>
+    wf_tag t && wf_data x && blank w1 && blank w2 && (if cl then forallb not_lt w3 else blank w3)
+    && (if cd then negb (has_close x) else true)
+  | TClose t j => wf_tag t && forallb not_lt j
+  end.
+(** non-blank text directly after an end tag *)
+Definition stray_text (k : tok) : bool :=
+  match k with
+  | TClose _ j | TEmpty _ _ j | TLeaf _ _ _ _ _ true j => negb (blank j)
+  | _ => false
+  end.
 (** after a start tag or a data element without end tag, the end tag of the same name would be read as ITS end tag *)
 Definition adj (a b : tok) : bool :=
   match a, b with
